@@ -13,7 +13,7 @@ set of occurrences of a free variable in the function text is exactly the set of
 """
 
 KINDS = ['nested', 'nested', 'nested', 'toplevel', 'lambda', 'method', 'classmethod', 'loop', 'factory_loop',
-         'looplambda']
+         'looplambda', 'linelambdas', 'reloaded']
 BODIES = ['ret', 'if', 'while', 'for']
 DEFAULT_KINDS = ['int', 'list', 'dict', 'closure']
 
@@ -52,8 +52,8 @@ def gen_case(rng, idx, force=None):
     """Draw one case. `force` may pin some fields (used to guarantee coverage of every shape)."""
     force = dict(force or {})
     kind = force.pop('kind', None) or rng.choice(KINDS)
-    is_lambda = kind in ('lambda', 'looplambda')
-    has_closure = kind != 'toplevel'
+    is_lambda = kind in ('lambda', 'looplambda', 'linelambdas')
+    has_closure = kind not in ('toplevel', 'reloaded')
     c = {'id': idx, 'kind': kind}
     c['params'] = gen_signature(rng, has_closure, is_lambda)
     nfree = rng.choice([0, 1, 1, 2, 3, 4]) if has_closure else 0
@@ -78,6 +78,20 @@ def gen_case(rng, idx, force=None):
     c['decl_global'] = has_closure and not is_lambda and rng.random() < 0.5
     # the function under test carries __wrapped__ (it is the WRAPPER): functools.wraps decorator, update_wrapper by hand,
     # __wrapped__ set manually to an unrelated function, or the outer of two stacked wraps-wrappers
+    # several lambdas on ONE source line (different signatures; same or different free variables), converted in sequence
+    c['params_more'] = []
+    c['lam_free'] = []
+    if kind == 'linelambdas':
+        n = rng.choice([2, 2, 3])
+        c['params_more'] = [gen_signature(rng, has_closure, True) for _ in range(n - 1)]
+        c['lam_free'] = [list(c['free'])] + [
+            list(c['free']) if rng.random() < 0.5 else sorted(rng.sample(c['free'], rng.randrange(len(c['free']) + 1)))
+            for _ in range(n - 1)]
+    # the same module file edited and executed again: another function at the same (file, line, name)
+    c['params2'] = gen_signature(rng, False, False) if kind == 'reloaded' else []
+    # further namespaces of a module-level function: types.FunctionType over the same code object, or the module source
+    # executed again (equal code objects at the same site)
+    c['ns_mode'] = rng.choice(['functiontype', 'reexec'])
     c['wrap'] = None
     if kind in ('nested', 'toplevel', 'loop', 'factory_loop', 'method') and rng.random() < 0.3:
         c['wrap'] = rng.choice(['wraps', 'wraps', 'update_wrapper', 'manual', 'stacked'])
@@ -116,7 +130,7 @@ def gen_case(rng, idx, force=None):
 def normalise(c):
     """Make the forced combination consistent (so every dict renders to a valid module)."""
     kind = c['kind']
-    is_lambda = kind in ('lambda', 'looplambda')
+    is_lambda = kind in ('lambda', 'looplambda', 'linelambdas')
     if kind == 'toplevel':
         c['free'] = []; c['free_nested'] = []; c['free_write'] = []; c['unused'] = []; c['empty'] = []
         c['sibling_conv'] = False
@@ -160,6 +174,50 @@ def normalise(c):
     c.setdefault('falsy_self', None); c.setdefault('namespaces', 1); c.setdefault('global_write', False)
     c.setdefault('bind', 'bound'); c.setdefault('cf_write', []); c.setdefault('decl_global', False)
     c.setdefault('wrap', None); c.setdefault('wrap_sig', 'own'); c.setdefault('wrap_calls', False)
+    c.setdefault('params_more', []); c.setdefault('lam_free', []); c.setdefault('params2', []); c.setdefault('ns_mode', 'functiontype')
+    if kind == 'linelambdas':
+        c['free_nested'] = []; c['empty'] = []
+        if not c['params_more']:
+            c['params_more'] = [[{'name': 'q0', 'kind': 'pos', 'default': None, 'ann': None}]]
+        allps = [c['params']] + c['params_more']
+        for j, ps in enumerate(allps):
+            if not ps:
+                ps.append({'name': 'q9', 'kind': 'pos', 'default': None, 'ann': None})
+            for p in ps:
+                p['ann'] = None
+                if p['kind'] == 'posonly':
+                    p['kind'] = 'pos'
+                # distinct parameter names per lambda: malt (and we) tell the lambdas of a line apart by their signatures
+                suffix = 'bcd'[j - 1] if j else ''
+                if j and not p['name'].endswith(suffix):
+                    p['name'] = p['name'] + suffix
+        lf = list(c['lam_free']) + [list(c['free'])] * len(allps)
+        c['lam_free'] = [[x for x in l if x in c['free']] for l in lf[:len(allps)]]
+        c['lam_free'][0] = list(c['free'])
+        c['ninst'] = len(allps)
+    else:
+        c['params_more'] = []; c['lam_free'] = []
+    if kind == 'reloaded':
+        for k in ('free', 'free_nested', 'free_write', 'unused', 'empty', 'cf_write'):
+            c[k] = []
+        c['sibling_conv'] = False; c['decl_global'] = False; c['clear'] = None; c['namespaces'] = 1
+        c['directive'] = None if c['directive'] != 'global' else 'global'
+        for ps in (c['params'], c['params2']):
+            for p in ps:
+                if p['default'] == 'closure':
+                    p['default'] = 'list'
+                if p['ann'] in ('encl', 'free'):
+                    p['ann'] = 'global'
+        if c.get('ret_ann') in ('encl', 'free'):
+            c['ret_ann'] = 'global'
+        if [(p['name'], p['kind'], p['default']) for p in c['params2']] == [(p['name'], p['kind'], p['default']) for p in c['params']]:
+            c['params2'] = c['params2'] + [{'name': 'kz', 'kind': 'kwonly', 'default': 'int', 'ann': None}] \
+                if not any(p['kind'] == 'varkw' for p in c['params2']) else \
+                [{'name': 'qz', 'kind': 'pos', 'default': None, 'ann': None}] + [dict(p, default=None) if p['kind'] in ('pos', 'posonly') else p for p in c['params2']]
+    else:
+        c['params2'] = []
+    if c.get('ns_mode') == 'reexec' and c.get('namespaces', 1) > 1:
+        c['clear'] = None
     if kind not in ('nested', 'toplevel', 'loop', 'factory_loop', 'method'):
         c['wrap'] = None
     if kind == 'method' and c['wrap']:
@@ -194,12 +252,17 @@ def shape_key(c):
             c['future_annotations'], c['ret_ann'], c['sibling_conv'], c['ninst'], c.get('bind'),
             c.get('falsy_self'), c.get('namespaces', 1), c.get('global_write', False),
             len(c.get('cf_write', [])), c.get('decl_global', False), c.get('wrap'),
-            c.get('wrap_sig') if c.get('wrap') else None, c.get('wrap_calls', False))
+            c.get('wrap_sig') if c.get('wrap') else None, c.get('wrap_calls', False),
+            tuple(tuple((p['kind'], p['default']) for p in ps) for ps in c.get('params_more', [])),
+            tuple(len(l) for l in c.get('lam_free', [])),
+            tuple((p['kind'], p['default'], p['ann']) for p in c.get('params2', [])),
+            c.get('ns_mode') if c.get('namespaces', 1) > 1 else None)
 
 
 def nontrivial(c):
     return bool(c['free'] or c['free_nested'] or c['free_write'] or c['kind'] in ('method', 'classmethod')
-                or any(p['default'] for p in c['params']) or c.get('namespaces', 1) > 1 or c.get('cf_write') or c.get('wrap'))
+                or any(p['default'] for p in c['params']) or c.get('namespaces', 1) > 1 or c.get('cf_write') or c.get('wrap')
+                or c['kind'] in ('linelambdas', 'reloaded'))
 
 
 # ------------------------------------------------------------------------------------------------ rendering
@@ -465,13 +528,22 @@ def render(c):
         L.append("    out['f'] = [f]")
         L.append('    import types as _types')
         L.append('    for it in range(1, %d):' % c.get('namespaces', 1))
-        L.append('        ns = dict(globals())')
-        L.append("        ns['g0'] = 1000 + 500 * it")
-        L.append("        ns['g1'] = [2000 + 500 * it]")
-        L.append("        fk = _types.FunctionType(f.__code__, ns, f.__name__, f.__defaults__, None)")
-        L.append("        fk.__kwdefaults__ = f.__kwdefaults__")
-        L.append("        fk.__annotations__ = dict(f.__annotations__)")
-        L.append("        fk.__dict__.update(f.__dict__)")
+        if c.get('ns_mode') == 'reexec':
+            # the module source executed again: equal code objects at the same (file, line), another namespace
+            L.append("        ns = {'__name__': __name__, '__file__': __file__}")
+            L.append("        with open(__file__) as _fh:")
+            L.append("            exec(compile(_fh.read(), __file__, 'exec'), ns)")
+            L.append("        ns['g0'] = 1000 + 500 * it")
+            L.append("        ns['g1'] = [2000 + 500 * it]")
+            L.append("        fk = ns['f']")
+        else:
+            L.append('        ns = dict(globals())')
+            L.append("        ns['g0'] = 1000 + 500 * it")
+            L.append("        ns['g1'] = [2000 + 500 * it]")
+            L.append("        fk = _types.FunctionType(f.__code__, ns, f.__name__, f.__defaults__, None)")
+            L.append("        fk.__kwdefaults__ = f.__kwdefaults__")
+            L.append("        fk.__annotations__ = dict(f.__annotations__)")
+            L.append("        fk.__dict__.update(f.__dict__)")
         L.append("        out['f'].append(fk)")
         L.append("        out['ns'].append(ns)")
         L.append("    for ns in out['ns']:")
@@ -494,6 +566,18 @@ def render(c):
         return '\n'.join(L) + '\n'
     L.append('def build(convert):')
     L.append("    out = {'setters': {}, 'getters': {}, 'f': [], 'inst_setters': [], 'inst_getters': []}")
+    if kind == 'linelambdas':
+        L += _enclosing_vars(c, '    ')
+        L += _accessors(c, '    ', per_instance=False)
+        lams = []
+        for j, ps in enumerate([c['params']] + c['params_more']):
+            sub = dict(c, params=ps, free=c['lam_free'][j], free_nested=[], uid=c.get('uid', 'u') + '-l%d' % j)
+            lams.append(render_lambda(sub))
+        L.append('    fs = (%s,)' % ', '.join(lams))          # all on ONE source line
+        L.append("    out['f'] = list(fs)")
+        L.append("    out['tf'] = [convert(x) for x in out['f']]")
+        L.append('    return out')
+        return '\n'.join(L) + '\n'
     if kind in ('loop', 'looplambda'):
         L += _enclosing_vars(c, '    ')
         L.append('    for it in range(%d):' % c['ninst'])
@@ -535,7 +619,7 @@ def _enclosing_vars(c, I, it=False):
             pass
         else:
             L.append(I + '%s = %d%s' % (n, base_value(n), ' + 100 * it' if it else ''))
-    if any(p['default'] == 'closure' for p in c['params']):
+    if any(p['default'] == 'closure' for ps in [c['params']] + c.get('params_more', []) for p in ps):
         L.append(I + 'dshared = [5]')
     if any(p['ann'] == 'encl' for p in c['params']) or c.get('ret_ann') == 'encl':
         L.append(I + 'TAnn = int')
